@@ -309,7 +309,10 @@ def other_observations(tier):
             finally:
                 shutil.rmtree(tmp, ignore_errors=True)
     # falsy flag values on the command line (0, empty string): they are values, not "flag absent"
-    for kind, flags, kw in (('svg', ['--title', ''], {'title': ''}), ('svg', ['--desc', ''], {'desc': ''}), ('svg', ['--svgid', ''], {'svgid': ''}),
+    for kind, flags, kw in (('svg', ['--no-classes'], {'svgclass': None, 'lineclass': None}), ('svg', ['--no-classes', '--dark', 'darkblue'], {'svgclass': None, 'lineclass': None, 'dark': 'darkblue'}),
+                            ('svgz', [], {}), ('svgz', ['--scale', '3', '--dark', 'darkblue', '--no-namespace'], {'scale': 3, 'dark': 'darkblue', 'svgns': False}),
+                            ('svgz', ['--no-classes', '--title', 'T'], {'svgclass': None, 'lineclass': None, 'title': 'T'}),
+                            ('svg', ['--title', ''], {'title': ''}), ('svg', ['--desc', ''], {'desc': ''}), ('svg', ['--svgid', ''], {'svgid': ''}),
                             ('svg', ['--svgclass', ''], {'svgclass': ''}), ('svg', ['--lineclass', ''], {'lineclass': ''}), ('svg', ['--border', '0'], {'border': 0}),
                             ('png', ['--border', '0'], {'border': 0}), ('png', ['--dpi', '0'], {'dpi': 0}), ('txt', ['--border', '0'], {'border': 0}),
                             ('pdf', ['--border', '0', '--scale', '1'], {'border': 0, 'scale': 1}), ('eps', ['-b', '0'], {'border': 0}),
@@ -319,7 +322,12 @@ def other_observations(tier):
             pth = os.path.join(tmp, 'out.' + kind)
             status, out, err, tb = run_cli(flags + ['--output', pth, CONTENT])
             ok = status == 0 and os.path.exists(pth)
-            got = digest(normalise(kind, open(pth, 'rb').read())) if ok else failure(ValueError(str(status)) if not tb else RuntimeError(str(status)))
+            data = open(pth, 'rb').read() if ok else b''
+            if kind == 'svgz' and ok:
+                data, kind = gzip.decompress(data), 'svg'
+            elif kind == 'svgz':
+                kind = 'svg'
+            got = digest(normalise(kind, data)) if ok else failure(ValueError(str(status)) if not tb else RuntimeError(str(status)))
             try:
                 ref = digest(normalise(kind, save_stream(qr, kind, kw)))
             except Exception as e:  # noqa
